@@ -71,6 +71,9 @@ def _paths(f, limit=4000):
     return out
 
 
+_depth = [0]
+
+
 def _path_effect(f, path):
     """(d_parent, d_found, returns) along the path; returns = 'true' / 'false' / 'other'"""
     eff = {s: 0 for s in STACKS}
@@ -90,6 +93,23 @@ def _path_effect(f, path):
             for e in walk(s_):
                 sc = _stack_call(e)
                 if sc is None:
+                    # a helper of the handler called on the same object: its own (uniform) effect counts here
+                    if e.get('k') == 'call' and e.get('cid') is not None and getattr(f, 'facts', None) is not None and _depth[0] < 3:
+                        g = f.facts.by_id.get(e['cid'])
+                        ob = strip(e.get('obj')) if e.get('obj') is not None else None
+                        if g is not None and g.cls_qn == f.cls_qn and g.id != f.id and g.blocks and (ob is None or ob.get('k') == 'this') and \
+                                g.short not in ('StartObject', 'EndObject', 'StartArray', 'EndArray', 'Key'):
+                            _depth[0] += 1
+                            try:
+                                effs = set(_path_effect(g, p_)[:2] for p_ in _paths(g))
+                            finally:
+                                _depth[0] -= 1
+                            if len(effs) == 1:
+                                d1, d2 = effs.pop()
+                                eff['parent_st_'] += d1
+                                eff['found_count_st_'] += d2
+                            elif len(effs) > 1 and any(x != (0, 0) for x in effs):
+                                raise AnalysisBroken('C19.a: helper %s has paths with different context-stack effects %s' % (g.short, sorted(effs)))
                     continue
                 st, m = sc
                 if m in ('emplace_back', 'push_back'):
@@ -187,6 +207,8 @@ def clause_c(facts, rep, fs):
         if f is None:
             continue
 
+        _Matoms = Must(f)       # for its view of edges: bool locals that name a condition, conjunctions (sv/e2_dom.py)
+
         def assigns_parent(s_):
             return s_ is not None and s_.get('k') == 'bin' and s_['op'] == '=' and is_this_member(strip(s_['l']), 'parent_node_')
 
@@ -232,9 +254,11 @@ def clause_c(facts, rep, fs):
                 if t and t.get('cond') is not None and len(B['succs']) == 2 and k + 1 < len(path):
                     nxt = path[k + 1]
                     if B['succs'][0] == nxt and B['succs'][1] != nxt:
-                        st |= edge_facts(t['cond'], True)
+                        for c_at, s_at in _Matoms._atoms(t['cond'], True):
+                            st |= edge_facts(c_at, s_at)
                     elif B['succs'][1] == nxt and B['succs'][0] != nxt:
-                        st |= edge_facts(t['cond'], False)
+                        for c_at, s_at in _Matoms._atoms(t['cond'], False):
+                            st |= edge_facts(c_at, s_at)
             if ret is None or cval(ret[1].get('e')) != 1:
                 continue
             null_ok = 'null' in st or 'untouched' in st
@@ -540,6 +564,9 @@ def run(rep, tier):
         # "never corrupts memory or the document ... repeated application": new containers built by ParseSchema keep
         # views into the schema text buffer, so that buffer must outlive them (shared with C13 clause g)
         clause_event_kind(facts, rep)
+        # 'replaces the value of each declared key the text provides' on ANY valid text: the handler's node stack can hold the
+        # most nodes a valid text of that length can have, so no valid text is refused (shared with C02)
+        _c02.clause_setup_bound(facts, rep, classes=(HANDLER,))
         # declared keys are matched by their whole name: any byte comparison of key data is dominated by a length equality (shared with C14)
         from . import c14 as _c14
         _c14.clause_eq_length(facts, rep)
@@ -552,8 +579,9 @@ def run(rep, tier):
     except AnalysisBroken as ex:
         rep.broken.append(str(ex))
     # the shape rules on the handler are decided together with the exploration that interprets the same event methods
-    for r_ in ('E9.stack-effects', 'E2.key-lookup', 'E2.build-mode', 'E2.restore-on-pop'):
-        rep.corroborate(r_, 'E6.schema-merge')
+    # (the rules themselves are NOT paired: the defects they exist for need three levels of in-place objects with
+    # particular hit counts, an empty object that still owns storage, ... - outside the exploration's universe; only
+    # their instance floors are)
     for pre_ in ('C19.a:', 'C19.b:', 'C19.c:', 'C19.d:'):
         rep.corroborate_floor(pre_, 'E6.schema-merge')
     rep.trust('clang 14 front end and CFG builder', 'std::vector emplace_back/push_back add one element, pop_back removes one, back() reads the last')
